@@ -318,7 +318,11 @@ const TYPES: &[&str] = &[
     "INT", "INTEGER", "BIGINT", "SMALLINT(5)", "INT UNSIGNED", "TEXT", "VARCHAR(10)", "VARCHAR", "CHARACTER VARYING(20)", "CHAR(3)", "BOOLEAN", "DATE", "TIMESTAMP", "TIMESTAMP(3) WITH TIME ZONE", "NUMERIC(10)",
     "DECIMAL(10,2)", "DOUBLE PRECISION", "FLOAT(8)", "UUID", "JSON", "STRING", "geometry", "my.type", "foo(1, 'a')", "INT[]", "ENUM('a','b')", "VARCHAR(010)",
 ];
-const TYPE_PROBES: &[&str] = &["ARRAY<INT>", "STRUCT<a INT>", "Nullable(String)", "Map(String, Int)", "DATETIME64(3)", "ARRAY(INT)", "INT[][]", "UNSIGNED", "NUMERIC(3,)", "VARCHAR()"];
+const TYPE_PROBES: &[&str] = &[
+    "ARRAY<INT>", "STRUCT<a INT>", "Nullable(String)", "Map(String, Int)", "DATETIME64(3)", "ARRAY(INT)", "INT[][]", "UNSIGNED", "NUMERIC(3,)", "VARCHAR()",
+    // ENUM / SET label lists (parse_comma_separated): trailing comma, missing separator, list ends
+    "ENUM('a','b',)", "SET('a',)", "ENUM('a' 'b')", "ENUM('a',,)", "ENUM('a', from)", "SET('a','b'",
+];
 const OPTS_OK: &[&str] = &[
     "NULL", "NOT NULL", "DEFAULT 1", "DEFAULT 'x'", "DEFAULT a + 1", "PRIMARY KEY", "UNIQUE", "CHECK (a > 0)", "COMMENT 'c'", "REFERENCES u", "REFERENCES u (id)", "REFERENCES s.u (a, b)", "AUTO_INCREMENT", "AUTOINCREMENT",
     "ASC", "DESC",
